@@ -539,6 +539,8 @@ def wds_read_signal(key: str, data: bytes) -> Optional[np.ndarray]:
 
     try:
         force_as = _infer_force_as_from_rfilename(key)
-        return read_signal(io.BytesIO(data), force_as=force_as)
+        signal = read_signal(io.BytesIO(data), force_as=force_as)
     except:
         return None
+    # e.g. an npz archive under an "npy" key loads as an NpzFile, not an array
+    return signal if isinstance(signal, np.ndarray) else None
